@@ -1,0 +1,11 @@
+//go:build verif
+
+package crypto
+
+// Verification hook for property C02 (batch signature checking): the unexported entry
+// constructor of BatchVerifier, so that the verifier can be driven directly (single-entry
+// batches, signature slices of any length). The random coefficients are injected by the harness
+// through crypto/rand.Reader; Verify itself is the unmodified code.
+func (v *BatchVerifier) VerifC02Add(publicKey *Key, message, sig []byte) {
+	v.add(publicKey, message, sig)
+}
